@@ -28,6 +28,10 @@ def budget(tier):
 
 
 def gen_case(rng, tier, k):
+    if k % 4 == 0:
+        # many small networks, candidates of the unexpanded root / of every node of the full diagram
+        return {"batch": [{"bnet": common.g_tt(rng, rng.randint(3, 4)), "cfg": {}, "ops": [] if rng.random() < 0.6 else [["bfs", 0, None, None]],
+                           "queries": [[j, True, True] for j in range(3)]} for _ in range(25)]}
     nmax = 6 if tier == "quick" else 7
     r = rng.random()
     if r < 0.5:
@@ -49,6 +53,17 @@ def gen_case(rng, tier, k):
 
 
 def run_case(case):
+    if "batch" in case:
+        out = {"fails": [], "diffs": [], "tags": set(), "nontrivial": False, "sig": common.case_hash(case)}
+        for c in case["batch"]:
+            r = run_case(c)
+            for f in r["fails"]:
+                f["case"] = c
+            out["fails"] += r["fails"]
+            out["tags"] |= set(r["tags"])
+            out["nontrivial"] = out["nontrivial"] or r["nontrivial"]
+        out["tags"] = sorted(out["tags"] | {"batch"})
+        return out
     plain._patch_recorders()
     sd = make_sd(case)
     ni = common.NetInfo(sd.network)
@@ -96,7 +111,7 @@ def run_case(case):
         fails += f
         if len(c) == 0 and own:
             pass
-        if case["cfg"] and (len(own) >= 2 or any(len(orc.atts[a]) > 1 for a in own)):
+        if len(own) >= 2 or any(len(orc.atts[a]) > 1 for a in own):
             nontriv = True
         tags.add("node:" + ("minimal" if obs["minimal"] else "expanded" if obs["expanded"] else "stub"))
     for k_ in case["cfg"]:
